@@ -614,6 +614,18 @@ theorem generated_per_instance_state :
     Generated.asyncPerInstance.all (fun r => r.2.1 && r.2.2.1 && r.2.2.2) = true ∧
     Generated.asyncInitFramerReadsSelf = false := by decide
 
+/-- Tie to the source (regenerated on every run): whichever way a protocol object is given the socket framer — by
+    default, as an instance, as a CLASS — it gets the manager that matches by transaction id (the `.dict` variant of
+    the model); every other framer gets the FIFO manager (the `.fifo` variant) -/
+theorem generated_manager_kinds :
+    Generated.asyncManagerKinds =
+      [("default", "DictTransactionManager"), ("socket-instance", "DictTransactionManager"),
+       ("socket-class", "DictTransactionManager"), ("tcp-default", "DictTransactionManager"),
+       ("tcp-socket-class", "DictTransactionManager"), ("factory", "DictTransactionManager"),
+       ("rtu-instance", "FifoTransactionManager"), ("rtu-class", "FifoTransactionManager"),
+       ("ascii-class", "FifoTransactionManager"), ("serial-default", "FifoTransactionManager"),
+       ("serial-rtu-class", "FifoTransactionManager")] := by decide
+
 /-! ### replies arriving in pieces -/
 
 /-- the framing of each variant, in the vocabulary of C06 -/
